@@ -38,6 +38,10 @@ add("C04", "abisim", "exhaustive enumeration of slot-type pairs produced by real
     "All ordered pairs of 12 payload shapes (covering every core type incl. pointer, length, pointer-or-i64 at a joined slot) are built as real variants and parsed by wit-parser; for every (case slot, joined slot) pair cast() must exist both ways, produce the destination type, zero-extend/reinterpret on lowering, wrap/reinterpret on lifting and round-trip bit-for-bit on edge+random patterns for P in {4,8}; the same variants run through the full lowering/lifting pipeline against the reference ABI. Random 2..4-case variants extend this.",
     "Bitcast names carry their documented meaning; 2^32/2^64 domains are sampled (edges + random), not symbolically covered; per-backend cast emitters (Rust/C/...) are NOT executed by this check (Engine D would; not built) — it decides the shared cast table and pipeline only.")
 
+add("C16", "genrun", "constructive world generator (choice tape, proptest-shrunk) x 8 generators in-process with panic capture; corpus sweep; per-backend exclusions by construction",
+    "18k generated worlds per quick run (1..3 packages, `use` chains, every type constructor in every position, resources, async, futures/streams, error-context, world-level items, adversarial names and docs), each parsed by wit-parser and validated as a component type, run through a (backend, option variant) drawn from crates/test's variant lists; plus the whole tests/codegen corpus x all backends x all variants. Oracle: no panic. Declared exclusions are transcribed from crates/test should_fail_verify and applied by construction; six genuine panics found so far are listed known findings (excluded by construction, each kept alive by a minimal witness), two were fixed.",
+    "File-name exclusions are mapped to the WIT feature the file exercises; error-context is treated as part of the async proposal for C++/D; generators run in-process through the same clap Opts as the CLI; only panics count, returned errors do not.")
+
 PENDING_REASON = "check not built yet in this session (planned in DESIGN.md §4); not claimed until it exists and passes its sensitivity runs"
 
 def main():
@@ -89,6 +93,7 @@ def main():
 NA = {}
 HOOK_COMMITS = ["b827c12", "a6f2383"]
 ENGINES = [
+    {"name": "genrun", "path": "harness/genrun", "serves_properties": ["C16"], "kind_free_text": "tape-driven constructive WIT world generator (harness/witgen) + in-process drivers for all eight generators with panic capture and output collection"},
     {"name": "abisim", "path": "harness/abisim", "serves_properties": ["C01", "C02", "C03", "C04"], "kind_free_text": "recording wit_bindgen_core::abi::Bindgen + instruction interpreter + independent reference canonical ABI (harness/refabi), driven by proptest"},
     {"name": "rtpbt", "path": "harness/rtpbt", "serves_properties": ["C24"], "kind_free_text": "proptest histories against wit_bindgen::rt allocation entry points with a tracking global allocator"},
     {"name": "corepbt", "path": "harness/corepbt", "serves_properties": ["C17", "C25", "C26", "C27", "C28", "C34"], "kind_free_text": "proptest harnesses over public items of wit-bindgen-core / wit-bindgen rt / wit-bindgen-test"},
